@@ -103,7 +103,7 @@ theorem foldl_add_zeros (l : List α) (h : ∀ v ∈ l, v = zero) : l.foldl add 
   | nil => rfl
   | cons a t ih =>
     simp only [List.foldl_cons]
-    rw [h a (by simp), LawfulCNum.add_zero]
+    rw [h a (by simp), LawfulCNum.zero_add_zero]
     exact ih (fun v hv => h v (List.mem_cons_of_mem _ hv))
 
 /-- conditional probability `p[x][y] ≠ 0` ⇒ count `[x][y] ≠ 0` -/
